@@ -95,6 +95,11 @@ class C07(Prop):
             # the pooled connection idles out first: its eviction happens inside the next read
             steps.append({"t": "advance", "dt": idle + rng.choice([1, 30])})
         read_steps = []
+        failover = stack == "hash" and down is not None and rng.random() < 0.6
+        if failover:
+            # the reads themselves walk the server(s) through the whole failover: first failure, every retry
+            # (one per retry_timeout), eviction; the reads after dead_timeout then meet the revival
+            nreads = ck.get("retry_attempts", 0) + rng.choice([2, 3, 4])
         for _ in range(nreads):
             st = self.read_call(rng, stack, keys)
             net = gen.gen_net(rng, 0.4)
@@ -102,8 +107,16 @@ class C07(Prop):
                 st["net"] = net
             read_steps.append(len(steps))
             steps.append(st)
-            if rng.random() < 0.2:
+            if failover:
+                steps.append({"t": "advance", "dt": ck["retry_timeout"] + rng.choice([0.5, 0.25])})
+            elif rng.random() < 0.2:
                 steps.append({"t": "advance", "dt": rng.choice([0.25, 2])})
+        if failover and rng.random() < 0.5:
+            # ... while the server is still down
+            steps.append({"t": "advance", "dt": ck["dead_timeout"] + 1})
+            for _ in range(rng.randint(1, 2)):
+                read_steps.append(len(steps))
+                steps.append(self.read_call(rng, stack, keys))
         if down is not None:
             for i in down:
                 steps.append({"t": "node", "id": i, "health": "up"})
@@ -190,6 +203,10 @@ class C07(Prop):
                                     disc="%s.%s" % (stack, rec.method),
                                     miss=codec.enc(m.value), got=rec.enc_outcome(),
                                     fired=[list(f) for f in rec.fired]))
+            elif tag == "warm":
+                if rec.outcome == "raise":          # a read under ignore_exc, on servers that are all healthy again
+                    out.append(viol("read-raised-despite-ignore_exc", rec, disc="after-recovery",
+                                    exc=type(rec.exc).__name__, msg=str(rec.exc)[:80]))
             elif tag == "usable-set":
                 if rec.outcome != "return" or rec.value is not True:
                     out.append(viol("client-not-usable-afterwards", rec, got=rec.enc_outcome()))
@@ -202,7 +219,8 @@ class C07(Prop):
 
     def probe_names(self):
         return ("all-servers-down", "deserializer-failed", "fault-in-multi-key-read", "partial-hash-result",
-                "sentinel-default-returned", "idle-eviction-during-failing-read")
+                "sentinel-default-returned", "idle-eviction-during-failing-read",
+                "reads-walk-server-through-failover-and-revival")
 
     def probes(self, scn, res):
         p = {}
@@ -214,6 +232,10 @@ class C07(Prop):
                 any(st["t"] == "advance" and st["dt"] > scn["world"]["client_kwargs"]["pool_idle_timeout"]
                     for st in scn["steps"][:len(scn["steps"]) - 5]):
             p["idle-eviction-during-failing-read"] = 1
+        ck = scn["world"]["client_kwargs"]
+        if scn["world"]["stack"] == "hash" and downs and ck.get("retry_attempts") and \
+                sum(1 for c in res.calls if c.step >= 0 and c.fired and c.method in gen.READS) >= ck["retry_attempts"] + 2:
+            p["reads-walk-server-through-failover-and-revival"] = 1
         for c in res.calls:
             for f in c.fired:
                 if f[2] == "deser":
